@@ -313,3 +313,23 @@ class Union(Maker):
                 v = a
             vals.append(v)
         return SUnion(t, vals), hyps
+
+
+class Tok(Maker):
+    """an abstract immutable python value of a given type: only its identity and type are modelled
+    (used for plumbing proofs: "this field of the result is that field of the input")"""
+    def __init__(self, pytype, example=None):
+        self.pytype = pytype
+        self.example = example
+
+    def __call__(self, eng, name):
+        from .engine import Opaque
+        return Opaque(name, self.pytype), []
+
+    def examples(self, rng, n):
+        return [self.example] if self.example is not None else []
+
+
+def Same(a, b):
+    """identity of abstract values / python objects"""
+    return a is b
